@@ -205,7 +205,8 @@ PROPS = {
         fixtures=[],
         gen_anchored=False,
         exhaustive_quick=True, exhaustive_thorough=True,
-        stages=[dict(test="TestC07Enum", kind="enum", quick=1, thorough=1, timeout_thorough=3600), dict(test="TestC07", kind="rapid", quick=48000, thorough=800000, timeout_thorough=5400)],
+        stages=[dict(test="TestC07Enum", kind="enum", quick=1, thorough=1, timeout_thorough=3600), dict(test="TestC07", kind="rapid", quick=48000, thorough=800000, timeout_thorough=5400),
+                dict(test="FuzzC07", kind="fuzz", quick=0, thorough=120, timeout_thorough=900)],
         replay="TestReplayC07",
         rule="(S1, exhaustive, seed independent) all sequences of width-w levels of length <= 16/9/6/5 (quick) or <= 18/10/7/6 (thorough) for w = 1/2/3/4: encoder output strictly decoded "
              "== input, library decode(encode) == input (+ < 8 padding, consumed = 4+len), library decoder on the all-bit-packed and on the maximal-RLE foreign encoding, every 7th also "
@@ -223,7 +224,7 @@ PROPS = {
                    "Layout limits of the documented subset are respected: v1 data pages, PLAIN, chunks contiguous from byte 4 in schema order.",
         fixtures=["flat24", "nest", "tiny", "rep3"],
         gen_anchored=True,
-        stages=[dict(test="TestC04", kind="rapid", quick=2400, thorough=48000)],
+        stages=[dict(test="TestC04", kind="rapid", quick=2400, thorough=48000), dict(test="FuzzC04", kind="fuzz", quick=0, thorough=120, timeout_thorough=900)],
         replay="TestReplayC04",
         rule="rapid: 1..3 row groups of 1..120 records on flat24/nest/tiny (lists up to 700 so that pages exceed 504 entries), written by pqref.WriteFile with, per column chunk: "
              "codec (file-wide or mixed per column), page cuts at drawn record boundaries (independent per column), per page a drawn legal segmentation of rep and def level streams "
@@ -242,7 +243,7 @@ PROPS = {
                    "rejection must come from metadata. The unmodified base file must read correctly, otherwise the case is discarded and counted.",
         fixtures=["flat24", "nest"],
         gen_anchored=True,
-        stages=[dict(test="TestC18", kind="rapid", quick=3200, thorough=64000)],
+        stages=[dict(test="TestC18", kind="rapid", quick=3200, thorough=64000), dict(test="FuzzC18", kind="fuzz", quick=0, thorough=120, timeout_thorough=900)],
         replay="TestReplayC18",
         rule="rapid: 1..3 row groups of 1..50 records on flat24/nest, conservative base encoding with drawn page splits and codec; one injection of kind in {dict-plain, dict-rle, index-page, "
              "v2, enc-bss (float/double), enc-rle-bool, enc-delta-binary (ints), enc-delta-length, enc-delta-bytearray (strings), lvl-bitpacked-def, lvl-bitpacked-rep (columns with such levels), "
@@ -474,9 +475,13 @@ def _run(D, pid, cfg, tier, seed, replay, W, t0):
         total = st[tier]
         if total == 0:
             continue
+        if os.environ.get("VERIF_ONLY_STAGE") and os.environ["VERIF_ONLY_STAGE"] != st["test"]:
+            continue
         if st.get("premid") and "mid" in cfg:
             cfg["mid"](D, pid, cfg, W, tier, None)
         nsh = min(st.get("shards", NCPU), NCPU)
+        if st["kind"] == "fuzz":
+            nsh = 1  # Go's fuzzer uses all cores itself
         if st["kind"] == "rapid":
             per = max(1, total // nsh)
         jobs = []
@@ -497,6 +502,11 @@ def _run(D, pid, cfg, tier, seed, replay, W, t0):
                 if st["kind"] == "rapid":
                     args += ["-rapid.checks=%d" % per, "-rapid.seed=%d" % rapid_seed(seed, sh, si), "-rapid.nofailfile",
                              "-rapid.shrinktime=%s" % st.get("shrinktime", "20s")]
+                elif st["kind"] == "fuzz":
+                    # coverage-guided: cannot be pinned to a seed; a failing input is saved by the property itself (VERIF_FAILDIR)
+                    os.makedirs(os.path.join(W.dir, "fuzzcache"), exist_ok=True)
+                    args = ["-test.run", "^$", "-test.fuzz", "^%s$" % st["test"], "-test.fuzztime", "%ds" % total,
+                            "-test.fuzzcachedir", os.path.join(W.dir, "fuzzcache"), "-test.timeout", "0", "-test.parallel", str(NCPU)]
                 else:
                     env["VERIF_BUDGET"] = str(total)
                 tmo = st.get("timeout_" + tier, st.get("timeout", 3000 if tier == "thorough" else 1200))
